@@ -477,6 +477,19 @@ def hubs(tier="quick"):
         atoms2 = atoms + [(k + 4, "H"), (k + 5, "F"), (k + 6, "Cl")]
         bonds2 = bonds + [(k + 3, k + 4), (k + 3, k + 5), (k + 3, k + 6)]
         out.append(mk(SMG, atoms2, bonds2, astereo=[("Tetrahedral", (k + 3, 3, k + 4, k + 5, k + 6), 1)]))
+    out += hub_arms()
+    return out
+
+
+def hub_arms():
+    """F5W(-C*FClBr)2: a seven-coordinate centre (no descriptor class exists for it) whose neighbourhood holds two stereocentres:
+    (R,S) is meso - equal to its mirror image - and (R,R) / (S,S) are enantiomers"""
+    atoms = [(0, "W")] + [(i, "F") for i in range(1, 6)] + [(6, "C"), (7, "C")] + \
+        [(8, "F"), (9, "Cl"), (10, "Br"), (11, "F"), (12, "Cl"), (13, "Br")]
+    bonds = [(0, i) for i in range(1, 8)] + [(6, 8), (6, 9), (6, 10), (7, 11), (7, 12), (7, 13)]
+    out = []
+    for p1, p2 in ((1, -1), (1, 1), (-1, -1)):
+        out.append(mk(SMG, atoms, bonds, astereo=[("Tetrahedral", (6, 0, 8, 9, 10), p1), ("Tetrahedral", (7, 0, 11, 12, 13), p2)]))
     return out
 
 
